@@ -350,6 +350,43 @@ class Program:
             except Exception:
                 continue
             for sub in st.body:
+                # locals()[method] = factory(method): the factory returns a closure over the method name
+                if isinstance(sub, ast.Assign) and len(sub.targets) == 1 and isinstance(sub.targets[0], ast.Subscript) and isinstance(sub.targets[0].value, ast.Call) \
+                        and isinstance(sub.targets[0].value.func, ast.Name) and sub.targets[0].value.func.id in ('locals', 'vars') and isinstance(st.target, ast.Name) \
+                        and isinstance(sub.targets[0].slice, ast.Name) and sub.targets[0].slice.id == st.target.id and isinstance(sub.value, ast.Call) \
+                        and isinstance(sub.value.func, ast.Name) and len(sub.value.args) == 1 and not sub.value.keywords and isinstance(sub.value.args[0], ast.Name) \
+                        and sub.value.args[0].id == st.target.id:
+                    fac = m.funcs.get(sub.value.func.id)
+                    inner = self._closure_of_factory(fac)
+                    if inner is None:
+                        raise AnalysisError('method factory %s in Spectrum_mod has an unexpected form (line %d)' % (sub.value.func.id, sub.lineno))
+                    par = fac.args.args[0].arg
+                    for meth in names:
+                        g = clone(inner)
+                        g.name = meth
+
+                        class Spec(ast.NodeTransformer):
+                            def visit_Name(self, n):
+                                if n.id == par and isinstance(n.ctx, ast.Load):
+                                    return ast.copy_location(ast.Constant(value=meth), n)
+                                return n
+
+                            def visit_Call(self, n):
+                                self.generic_visit(n)
+                                if isinstance(n.func, ast.Name) and n.func.id == 'getattr' and len(n.args) == 2 and isinstance(n.args[1], ast.Constant) and isinstance(n.args[1].value, str):
+                                    return ast.copy_location(ast.Attribute(value=n.args[0], attr=n.args[1].value, ctx=ast.Load()), n)
+                                return n
+                        g = Spec().visit(g)
+                        for n in ast.walk(g):
+                            if hasattr(n, 'lineno'):
+                                n.lineno = sub.lineno
+                        g._qualname = 'Spectrum.' + g.name
+                        g._module = m
+                        g._class = cls
+                        g._generated = True
+                        m.funcs[g._qualname] = g
+                        m.generated[g._qualname] = (g, ast.unparse(g))
+                    continue
                 call = sub.value if isinstance(sub, ast.Expr) else None
                 if not (isinstance(call, ast.Call) and isinstance(call.func, ast.Name) and call.func.id == 'exec'):
                     continue
@@ -381,6 +418,24 @@ class Program:
                             g._generated = True
                             m.funcs[g._qualname] = g
                             m.generated[g._qualname] = (g, text)
+
+
+    @staticmethod
+    def _closure_of_factory(fac):
+        """the inner function of `def factory(name): def inner(...): ...; inner.__name__ = name; return inner`"""
+        if fac is None or len(fac.args.args) != 1:
+            return None
+        body = [x for x in fac.body if not (isinstance(x, ast.Expr) and isinstance(x.value, ast.Constant))]
+        inner = [x for x in body if isinstance(x, ast.FunctionDef)]
+        rets = [x for x in body if isinstance(x, ast.Return)]
+        rest = [x for x in body if not isinstance(x, (ast.FunctionDef, ast.Return))]
+        if len(inner) != 1 or len(rets) != 1 or not (isinstance(rets[0].value, ast.Name) and rets[0].value.id == inner[0].name):
+            return None
+        for x in rest:
+            # only attribute assignments on the closure (inner.__name__ = ...)
+            if not (isinstance(x, ast.Assign) and all(isinstance(t, ast.Attribute) and isinstance(t.value, ast.Name) and t.value.id == inner[0].name for t in x.targets)):
+                return None
+        return inner[0]
 
 
 _LOCAL_IMPORTS = {}
